@@ -172,7 +172,8 @@ def to_spec(d, lang="yaql"):
                 x["when"] = w
             if tr.get("publish"):
                 x["publish"] = [{n: expr(e, lang)} for n, e in tr["publish"]]
-            x["do"] = list(tr["do"])
+            # `do_raw`: a literal string form of `do` (used by the inspection mutants)
+            x["do"] = tr["do_raw"] if isinstance(tr.get("do_raw"), str) else list(tr["do"])
             nxt.append(x)
         if nxt:
             ts["next"] = nxt
